@@ -218,6 +218,37 @@ def c12(m, o):
             os_ = None
             viol.append("the model runs when it is the only user of its Stratification objects, and fails with %s when the same "
                         "objects were also applied to a second model before the run" % repr(e)[:120])
+        if os_ is not None:
+            # ... and the objects are applied to (and run in) yet another model between two runs of this one: the second
+            # run, on the runner this model has cached, gives the same results again
+            from summer2 import CompartmentalModel
+            try:
+                other = CompartmentalModel([float(m.times[0]), float(m.times[-1])], ["Z0"] + [c for c in reversed(shared["comps"])],
+                                           list(shared["inf"]), timestep=float(m.times[1] - m.times[0]))
+                other.set_initial_population({c: 10.0 for c in shared["comps"]})
+                applied = 0
+                for st_ in list(impl._STRATS):
+                    try:
+                        other.stratify_with(st_)
+                        applied += 1
+                    except Exception:  # noqa  (a stratification that does not fit the other model)
+                        pass
+                if applied:
+                    checks += 1
+                    try:
+                        ms.run(p, solver="euler", jit=False)
+                        again = np.asarray(ms.outputs)
+                        if again.shape != os_.shape or not np.array_equal(again, os_, equal_nan=True):
+                            j = int(np.argmax(np.abs(again[0] - os_[0]))) if again.shape == os_.shape else 0
+                            viol.append("shared-stratification-layout: after the model's Stratification objects were applied to another "
+                                        "model, a second run of this model (same runner) puts %.12g instead of %.12g "
+                                        "into column %s of row 0" % (again[0][j] if again.shape == os_.shape else float("nan"),
+                                                                    os_[0][j], names[j] if j < len(names) else j))
+                    except Exception as e:  # noqa
+                        viol.append("shared-stratification-layout: after the model's Stratification objects were applied to another model, "
+                                    "a second run of this model fails with %s" % repr(e)[:120])
+            except Exception:  # noqa
+                pass
         if os_ is not None and (o3.shape != os_.shape or not np.array_equal(o3, os_, equal_nan=True)):
             same = o3.shape == os_.shape
             j = int(np.argmax(np.abs(o3[0] - os_[0]))) if same else 0
@@ -2032,9 +2063,47 @@ def c18_timefuncs(m, o):
     return {"checks": checks, "violations": viol[:6]}
 
 
+def c11_shared_keys(m, o):
+    """a Stratification object (with a literal population split) used by two models that hold other numbers: finalising
+    the second model must not change what the first one computes"""
+    from summer2 import CompartmentalModel, Stratification
+    viol, checks = [], 0
+
+    def base(init):
+        mm = CompartmentalModel([0, 5], ["S", "I"], ["I"], timestep=1.0)
+        mm.set_initial_population(init)
+        mm.add_transition_flow("rec", 0.1, "I", "S")
+        return mm
+    own = Stratification("age", ["young", "old"], ["S", "I"])
+    own.set_population_split({"young": 0.25, "old": 0.75})
+    ref = base({"S": 990.0, "I": 10.0})
+    ref.stratify_with(own)
+    ref.run({}, solver="euler", jit=False)
+    want = np.asarray(ref.outputs)
+    s_ = Stratification("age", ["young", "old"], ["S", "I"])
+    s_.set_population_split({"young": 0.25, "old": 0.75})
+    a = base({"S": 990.0, "I": 10.0})
+    a.stratify_with(s_)
+    b = base({"S": 0.25, "I": 0.75})
+    b.stratify_with(s_)
+    a.finalize()
+    b.finalize()
+    checks += 1
+    try:
+        a.run({}, solver="euler", jit=False)
+        got = np.asarray(a.outputs)
+        if got.shape != want.shape or not np.allclose(got, want, rtol=1e-12, atol=0):
+            viol.append("shared-graph-keys: two models share one Stratification object (split young 0.25 / old 0.75); model A starts at "
+                        "S=990, I=10, model B at S=0.25, I=0.75; after both were finalised A starts at %s instead of %s"
+                        % ([float(v) for v in got[0]], [float(v) for v in want[0]]))
+    except Exception as e:  # noqa
+        viol.append("shared-graph-keys: two models share one Stratification object; after both were finalised the first fails with %s" % repr(e)[:120])
+    return {"checks": checks, "violations": viol}
+
+
 MODEL_ORACLES = {"c02_traj": c02_traj, "c13": c13, "c12": c12, "c12_dates": c12_dates,
                  "c07": c07, "c07_closed": c07_closed, "c16": c16, "c14": c14, "c08": c08, "c09": c09, "c10": c10, "c04": c04, "c18_traj": c18_traj, "c06": c06, "c05": c05, "c03": c03, "c15": c15, "c11": c11, "c10_axis": c10_axis, "c12_grid": c12_grid,
-                 "c18_disparity": c18_disparity, "c18_timefuncs": c18_timefuncs}
+                 "c18_disparity": c18_disparity, "c18_timefuncs": c18_timefuncs, "c11_shared_keys": c11_shared_keys}
 
 
 def run_oracle(m, o):
